@@ -39,13 +39,14 @@ type op struct {
 }
 
 type thread struct {
-	id    int
-	name  string
-	wake  chan struct{}
-	op    *op
-	done  bool
-	steps int
-	vc    vclock
+	id     int
+	name   string
+	wake   chan struct{}
+	op     *op
+	done   bool
+	steps  int
+	vc     vclock
+	atomic int // > 0: inside vs.Atomically
 }
 
 // Point is one recorded scheduling decision.
@@ -220,7 +221,11 @@ func Run(main func(), prefix []int, horizon int, envSince bool, observer func(st
 		curEnabled := false
 		var held *thread
 		var lazies []*thread
+		inAtomic := s.cur != nil && !s.cur.done && s.cur.atomic > 0 && s.cur.op.enabled()
 		for _, t := range s.threads {
+			if inAtomic && t != s.cur {
+				continue // a harness thread inside vs.Atomically: its steps are no scheduling points
+			}
 			if !t.done && t.op.enabled() {
 				if t.id == DelayThread && s.Steps < DelayUntil {
 					held = t
@@ -401,6 +406,19 @@ func WaitStep(kind string, k int) {
 
 // WaitLazy parks the calling harness thread until the explorer chooses to run it (one deviation,
 // at any scheduling point) or nothing else can run.
+// Atomically runs f (on a harness thread) without scheduling points: whatever synchronisation
+// operations f performs, no other thread runs in between. For adversary threads whose own
+// interleavings are not the subject (a competitor that stores "all at once" at an instant the
+// explorer chooses).
+func Atomically(f func()) {
+	if s := S; s != nil && s.cur != nil {
+		t := s.cur
+		t.atomic++
+		defer func() { t.atomic-- }()
+	}
+	f()
+}
+
 func WaitLazy(kind string) {
 	if S == nil {
 		time.Sleep(2 * time.Millisecond)
@@ -423,54 +441,69 @@ func WaitUntil(kind string, cond func() bool) {
 // ---------------------------------------------------------------------------------------------
 // channels
 
-// Running free (no scheduler) other goroutines really run in parallel: between "the buffer is
-// empty" and the closedness probe a sender may slip a value in, and the probe - a real receive -
-// takes it. Such a value is not lost: it is parked here and handed to the next receive on that
-// channel (recvReady reports the channel ready while something is parked). Under the scheduler
-// only one thread runs at a time and this cannot happen.
+// Running free (no scheduler) other goroutines really run in parallel, and the two-step protocol of
+// the rewritten select statements ("Select says which arm is ready, the arm then performs the
+// operation") is no longer atomic: between the two another goroutine can take the value (the arm
+// would block for ever where the real select would not) or put one in (a closedness probe would
+// take and drop it). Running free, Select therefore performs the RECEIVE of the chosen arm itself,
+// atomically, with reflect.Select, and parks what it received (value or "closed") for the arm of the
+// same goroutine to pick up. Under the scheduler only one thread runs at a time and none of this
+// applies.
 var freeStash sync.Map // channel pointer -> *stash
+
+type parked struct {
+	owner uint64 // goroutine that performed the receive
+	val   reflect.Value
+	ok    bool
+}
 
 type stash struct {
 	mu   sync.Mutex
-	vals []reflect.Value
+	vals []parked
 }
 
-func stashed(ptr uintptr) *stash {
-	if q, ok := freeStash.Load(ptr); ok {
-		return q.(*stash)
+// gid returns the id of the calling goroutine (running free only; parsed from the stack header).
+func gid() uint64 {
+	var buf [64]byte
+	b := buf[:runtime.Stack(buf[:], false)] // "goroutine 123 [running]:..."
+	var id uint64
+	for _, c := range b[len("goroutine "):] {
+		if c < '0' || c > '9' {
+			break
+		}
+		id = id*10 + uint64(c-'0')
 	}
-	return nil
+	return id
 }
 
-func stashPop(ptr uintptr) (reflect.Value, bool) {
-	q := stashed(ptr)
-	if q == nil {
-		return reflect.Value{}, false
-	}
-	q.mu.Lock()
-	defer q.mu.Unlock()
-	if len(q.vals) == 0 {
-		return reflect.Value{}, false
-	}
-	v := q.vals[0]
-	q.vals = q.vals[1:]
-	return v, true
+func stashPush(ptr uintptr, p parked) {
+	q, _ := freeStash.LoadOrStore(ptr, &stash{})
+	st := q.(*stash)
+	st.mu.Lock()
+	st.vals = append(st.vals, p)
+	st.mu.Unlock()
 }
 
-func stashLen(ptr uintptr) int {
-	q := stashed(ptr)
-	if q == nil {
-		return 0
+// stashPop returns what a Select of the calling goroutine received on that channel, if anything.
+func stashPop(ptr uintptr) (parked, bool) {
+	q, ok := freeStash.Load(ptr)
+	if !ok {
+		return parked{}, false
 	}
-	q.mu.Lock()
-	defer q.mu.Unlock()
-	return len(q.vals)
+	st := q.(*stash)
+	me := gid()
+	st.mu.Lock()
+	defer st.mu.Unlock()
+	for i, p := range st.vals {
+		if p.owner == me {
+			st.vals = append(st.vals[:i], st.vals[i+1:]...)
+			return p, true
+		}
+	}
+	return parked{}, false
 }
 
 func recvReady(v reflect.Value) bool {
-	if S == nil && stashLen(v.Pointer()) > 0 {
-		return true
-	}
 	if v.Len() > 0 {
 		return true
 	}
@@ -478,15 +511,8 @@ func recvReady(v reflect.Value) bool {
 		// buffered and empty: ready only if closed; a probe on an open empty channel returns !ok without value
 		x, ok := v.TryRecv()
 		if x.IsValid() && ok {
-			if S != nil {
-				fmt.Fprintln(os.Stderr, "HARNESS-ERROR: a value appeared in an empty channel while a single thread was running")
-				os.Exit(2)
-			}
-			q, _ := freeStash.LoadOrStore(v.Pointer(), &stash{})
-			q.(*stash).mu.Lock()
-			q.(*stash).vals = append(q.(*stash).vals, x)
-			q.(*stash).mu.Unlock()
-			return true
+			fmt.Fprintln(os.Stderr, "HARNESS-ERROR: a value appeared in an empty channel while a single thread was running")
+			os.Exit(2)
 		}
 		return x.IsValid() && !ok
 	}
@@ -523,8 +549,6 @@ func Recv2[T any](ch <-chan T) (T, bool) {
 	if S != nil {
 		rv := reflect.ValueOf(ch)
 		point(&op{kind: "recv", enabled: func() bool { return recvReady(rv) }, obj: rv.Pointer()})
-	} else if x, ok := stashPop(reflect.ValueOf(ch).Pointer()); ok {
-		return x.Interface().(T), true
 	}
 	v, ok := <-ch
 	return v, ok
@@ -568,9 +592,27 @@ func Select(hasDefault bool, cases ...Case) int {
 		return r
 	}
 	if S == nil {
+		// receive arms: one atomic reflect.Select (which performs the receive; the value is parked for
+		// the arm); send arms keep the two-step protocol (the value to send is only known to the arm)
+		var rc []reflect.SelectCase
+		var idx []int
+		for i, c := range cases {
+			if !c.send && !c.ch.IsNil() {
+				rc = append(rc, reflect.SelectCase{Dir: reflect.SelectRecv, Chan: c.ch})
+				idx = append(idx, i)
+			}
+		}
+		rc = append(rc, reflect.SelectCase{Dir: reflect.SelectDefault})
+		me := gid()
 		for {
-			if r := ready(); len(r) > 0 {
-				return r[0]
+			if chosen, val, ok := reflect.Select(rc); chosen < len(idx) {
+				stashPush(cases[idx[chosen]].ch.Pointer(), parked{owner: me, val: val, ok: ok})
+				return idx[chosen]
+			}
+			for i, c := range cases {
+				if c.send && !c.ch.IsNil() && sendReady(c.ch) {
+					return i
+				}
 			}
 			if hasDefault {
 				return -1
@@ -608,14 +650,19 @@ func RecvNow[T any](ch <-chan T) T {
 
 func Recv2Now[T any](ch <-chan T) (T, bool) {
 	if S == nil {
-		if x, ok := stashPop(reflect.ValueOf(ch).Pointer()); ok {
-			return x.Interface().(T), true
+		// the Select of this goroutine has performed the receive already
+		if p, ok := stashPop(reflect.ValueOf(ch).Pointer()); ok {
+			if !p.ok {
+				var zero T
+				return zero, false
+			}
+			return p.val.Interface().(T), true
 		}
 	}
 	v, ok := <-ch
 	return v, ok
 }
-func SendNow[T any](ch chan<- T, v T)       { ch <- v }
+func SendNow[T any](ch chan<- T, v T) { ch <- v }
 
 // ---------------------------------------------------------------------------------------------
 // sync
